@@ -60,7 +60,7 @@ def required_counters(tier):
         "br.bcast1.fixed": 20,
         "br.bcast1.symbolic": 10,
         "br.symbolic.eval": 100,
-        "br.symbolic.args": 20,
+        "br.symbolic.args": 20, "br.symbolic.mutable_arg": 20,
         "br.rank_deficit": 20,
         "br.named.bound": 200,
         "br.named.new": 200,
@@ -243,12 +243,13 @@ def run_context(rec, rng, tier, script=None, ctx=None):
     """Generate (or replay) one context; returns the JSON-able script."""
     replaying = script is not None
     if not replaying:
-        ctx = {"kind": rng.choice(("call", "block", "block")), "n": rng.choice((0, 1, 2, 3)), "m": rng.choice((1, 2))}
+        ctx = {"kind": rng.choice(("call", "block", "block")), "n": rng.choice((0, 1, 2, 3)), "m": rng.choice((1, 2)), "hk": rng.choice((1, 2, 3))}
         nchecks = rng.choice((1, 2, 3, 3, 4, 5, 6))
         script = []
     else:
         nchecks = len(script)
-    args = {"n": ctx["n"], "m": ctx["m"]} if ctx["kind"] == "call" else {}
+    holder = real.Holder(ctx.get("hk", 2))
+    args = {"n": ctx["n"], "m": ctx["m"], "h": holder} if ctx["kind"] == "call" else {}
     out = {"ctx": ctx, "script": script}
 
     def body():
@@ -257,8 +258,14 @@ def run_context(rec, rng, tier, script=None, ctx=None):
             if replaying:
                 c = script[i]
             else:
+                if args and rng.random() < 0.25:
+                    holder.k = rng.choice((1, 2, 3, 4))  # the argument's state changes between checks
                 c = gen_check(rng, single, variadic, args, tier)
+                c["hk"] = holder.k
                 script.append(c)
+            holder.k = c.get("hk", holder.k)
+            if "{h." in c["spec"] and args:
+                rec.count("br.symbolic.mutable_arg")
             toks = M.parse(c["spec"])
             try:
                 ann = build_annotation(c["cat"], c["arr"], c["spec"])
@@ -271,7 +278,7 @@ def run_context(rec, rng, tier, script=None, ctx=None):
                 rec.open_corner("symbolic-expression-raises-other")
                 return
             got = real.check(x, ann)
-            key = (sorted(single.items()), sorted((k, list(v)) for k, v in variadic.items()), c["spec"].split(), c["shape"], c["cat"], c["arr"], c["vkind"], c["dtype"], sorted(args.items()))
+            key = (sorted(single.items()), sorted((k, list(v)) for k, v in variadic.items()), c["spec"].split(), c["shape"], c["cat"], c["arr"], c["vkind"], c["dtype"], sorted((k, v if not isinstance(v, real.Holder) else v.k) for k, v in args.items()))
             rec.case(key, nontrivial=bool(single or variadic) or len(toks) >= 2)
             if single or variadic:
                 rec.count("prior_nonempty")
@@ -324,7 +331,7 @@ def run_context(rec, rng, tier, script=None, ctx=None):
             single, variadic = s1, v1
 
     if ctx["kind"] == "call":
-        real.in_call_context(ctx["n"], ctx["m"], body)
+        real.in_call_context(ctx["n"], ctx["m"], body, holder)
     else:
         real.in_block_context(body)
     return out
